@@ -294,10 +294,10 @@ func SpecMatch(pattern string, hasWild bool, s string) bool {
 // Unsubscribe releases exactly the registration it removes: the difference between the uses of
 // the cache entry and the registered subscribers never changes.
 //@ func (*ResourceSubscription).Unsubscribe
-//@   requires rs != nil && rs.e != nil && rs.e.cache != nil
+//@   requires rs != nil && rs.e != nil && rs.e.cache != nil && sub != nil
 //@   safety[C15]
 //@ closure (*ResourceSubscription).Unsubscribe#1
-//@   requires rs != nil && rs.e != nil && rs.e.cache != nil
+//@   requires rs != nil && rs.e != nil && rs.e.cache != nil && sub != nil
 //@   ensures[C09] rs.e.count - card(rs.subs) == old(rs.e.count - card(rs.subs))
 //@   safety[C15]
 
